@@ -5,7 +5,7 @@ LEVEL = "model_checking"
 
 
 def check(run):
-    int_common.run_int(run, ["halt", "haltop", "hprog", "halt2"],
+    int_common.run_int(run, ["halt", "haltop", "hprog", "halt2", "hdbg"],
                        "halt = HALT x IME x all IE x IF (2048) with a request after 0-8 idle cycles; haltop = HALT followed by every defined opcode x IME x {nothing pending, pending before HALT (halt bug), "
                        "request arriving after 0-8 idle cycles}; hprog = every program up to length 3 (4 in thorough, sampled) containing HALT over the C04 alphabet, a request raised before every cycle offset. "
                        "Idle cycles are events of their own. distinct_nontrivial = distinct (opcode, cycles, PC delta, IE, IF, raises, initial state) tuples")
